@@ -1,24 +1,30 @@
 /-
-  Model of the part of /repo/compile.go that lowers conditions, logical operators, relational operators
-  and assignments to locals, with its label table and `patchCode`.
+  Model of the part of /repo/compile.go that lowers EXPRESSIONS — conditions, logical operators, relational operators,
+  arithmetic (with constant folding), unary minus, length, concatenation — and assignments to locals, with its label
+  table and `patchCode`.
 
   Transcribed function by function (same names, same case splits, same order of side effects on the code
   store, the label counter, the label table and the constant pool):
 
       savereg, ecnone, codeStore.{Add, Last, LastPC, Pop, SetA, PropagateKMV, PropagateMV},
       funcContext.{NewLabel, SetLabelPc, GetLabelPc, ConstIndex, RegisterLocalVar/SetRegTop},
-      compileExpr (constants, locals, globals = EVAL atoms, not, and/or, relational),
-      compileExprWithPropagation / …KMV… / …MV…, compileUnaryOpExpr (not),
+      compileExpr (constants, locals, globals = EVAL atoms, not, and/or, relational, arithmetic, unary minus, #, ..),
+      compileExprWithPropagation / …KMV… / …MV…, compileUnaryOpExpr (not, unary minus, #),
+      compileArithmeticOpExpr (constFold first — `lnum` —, operands through PropagateKMV = `binOperands`),
+      compileStringConcatOpExpr (crange = `1 + spine`, the CONCAT-popping loop = `popConcats`),
       compileRelationalOpExprAux, compileRelationalOpExpr, compileLogicalOpExpr, compileLogicalOpExprAux,
       compileBranchCondition, compileIfStmt, compileWhileStmt, compileRepeatStmt, compileReturnStmt (number / local),
       compileLocalAssignStmt/compileRegAssignment (one name, one expression),
       compileAssignStmtLeft / Right / compileAssignStmt (targets: locals and globals), compileChunk,
       compileFunctionExpr (main chunk: `local l0,…,l(n-1) = ...` prologue, final RETURN), patchCode.
 
-  The code as modelled is /repo HEAD **plus** the two proposed repairs fixes/C01-extra-rhs-after-direct-store.diff
-  and fixes/C01-jump-threading-patched-target.diff (see notes/C01.md).
+  Everything is parametric in the NUMBER STRUCTURE (`[NumStruct]`, Spec/CondAst.lean): the operations with which
+  `constFold` computes are uninterpreted; constants of the pool are compared the way `ConstIndex` does (the same
+  number, and never a NaN).  `loadRk` (method names of `obj:m()` calls) is outside this expression language.
 
-  `comp` is ONE structurally recursive function over the condition tree with a mode argument
+  The code as modelled is /repo HEAD (which contains the repairs of notes/C01.md).
+
+  `comp` is ONE structurally recursive function over the expression tree with a mode argument
   (`expr` = compileExpr, `aux` = compileLogicalOpExprAux, `bc` = compileBranchCondition); the Go functions
   are the named wrappers below it.  Explicit state passing (`CState`), no monad.
 -/
@@ -26,6 +32,8 @@ import GLua.Model.MiniVM
 
 namespace GLua.Compile
 open GLua.MiniVM
+
+variable [NumStruct]
 
 /-! ### the compile state -/
 
@@ -35,7 +43,6 @@ structure CState where
   labelPc : List (Nat × Int) := []        -- funcContext.labelPc (newest binding first; a missing key reads 0)
   consts  : List Konst := []              -- Proto.Constants
   regTop  : Nat := 0                      -- funcContext.regTop
-deriving Repr
 
 def regNotDefined : Nat := Generated.regNotDefined      -- opMaxArgsA + 1
 def ecLocal : Nat := Generated.ecLocal
@@ -78,9 +85,15 @@ def findIdx (cs : List Konst) (k : Konst) : Option Nat :=
   | [] => none
   | c :: r => if c = k then some 0 else (findIdx r k).map (· + 1)
 
-/-- `funcContext.ConstIndex(value)`: first equal constant, else append.  ("too many constants" is out of reach.) -/
+/-- a NaN number constant (`lv == value` is false for it in Go, whatever the pool holds). -/
+def _root_.GLua.MiniVM.Konst.isNaN : Konst → Bool
+  | .num x => NumStruct.isNaN x
+  | .str _ => false
+
+/-- `funcContext.ConstIndex(value)`: first equal constant (Go `==` on the same type and the same sign bit, i.e.
+    the same number unless it is NaN, which equals nothing), else append.  ("too many constants" is out of reach.) -/
 def constIndex (st : CState) (k : Konst) : CState × Nat :=
-  match findIdx st.consts k with
+  match (if k.isNaN then none else findIdx st.consts k) with
   | some i => (st, i)
   | none => ({ st with consts := st.consts ++ [k] }, st.consts.length)
 
@@ -132,11 +145,17 @@ def withPropagation (kmv : Bool) (isLogical : Bool) (r : Res) (reg : Nat) : CSta
   if isLogical then (r.st, reg, reg + r.inc)
   else propagate kmv r.st r.st.regTop reg r.inc
 
+/-- the two operands of a binary operator, each through `compileExprWithKMVPropagation`
+    (`b := reg; …(Lhs, &reg, &b); c := reg; …(Rhs, &reg, &c)`): returns (store, b, c). -/
+def binOperands (cl cr : CState → Nat → Res) (ll rl : Bool) (st : CState) (reg : Nat) : CState × Nat × Nat :=
+  let w1 := withPropagation true ll (cl st reg) reg
+  let w2 := withPropagation true rl (cr w1.1 w1.2.2) w1.2.2
+  (w2.1, w1.2.1, w2.2.1)
+
 /-- `compileRelationalOpExprAux` given the compile functions of the two operands. -/
 def relAux (cl cr : CState → Nat → Res) (ll rl : Bool) (st : CState) (reg : Nat) (op : RelOp) (flip label : Nat) : CState :=
-  let (st1, b, reg1) := withPropagation true ll (cl st reg) reg
-  let (st2, c, _) := withPropagation true rl (cr st1 reg1) reg1
-  emit (emit st2 (relInstr op flip b c)) (.jmp label)
+  let o := binOperands cl cr ll rl st reg
+  emit (emit o.1 (relInstr op flip o.2.1 o.2.2)) (.jmp label)
 
 /-- `if lb.b { SetLabelPc(lb.f); LOADBOOL a 0 1; SetLabelPc(lb.t); LOADBOOL a 1 0 }` -/
 def tailBools (st : CState) (a : Nat) (lb : LbLabels) (b : Bool) : CState :=
@@ -158,6 +177,13 @@ def tailPop (st : CState) (e : Nat) : CState :=
 def logicalTail (st : CState) (a : Nat) (lb : LbLabels) (b : Bool) : CState :=
   setLabelHere (tailPop (tailBools st a lb b) lb.e) lb.e
 
+/-- `code.AddABx(OP_LOADK, sreg, context.ConstIndex(value)); return sused` — the arm of `compileExpr` for
+    StringExpr / NumberExpr / constLValueExpr. -/
+def loadK (k : Konst) (reg : Nat) (ec : ExpCtx) (st : CState) : Res :=
+  let sreg := savereg ec reg
+  let ci := constIndex st k
+  { st := emit ci.1 (.loadk sreg ci.2), inc := if sreg < reg then 0 else 1 }
+
 /-- `compileExpr` on the leaves (constants, locals, opaque atoms); not recursive. -/
 def leafExpr (e : Cond) (reg : Nat) (ec : ExpCtx) (st : CState) : Res :=
   let sreg := savereg ec reg
@@ -166,12 +192,8 @@ def leafExpr (e : Cond) (reg : Nat) (ec : ExpCtx) (st : CState) : Res :=
   | .tru => { st := emit st (.loadbool sreg 1 0), inc := inc }
   | .fls => { st := emit st (.loadbool sreg 0 0), inc := inc }
   | .nil => { st := emit st (.loadnil sreg sreg), inc := inc }
-  | .num n =>
-    let (st, k) := constIndex st (.num n)
-    { st := emit st (.loadk sreg k), inc := inc }
-  | .str s =>
-    let (st, k) := constIndex st (.str s)
-    { st := emit st (.loadk sreg k), inc := inc }
+  | .num n => loadK (.num (NumStruct.lit n)) reg ec st
+  | .str s => loadK (.str s) reg ec st
   | .loc r => { st := emit st (.move sreg r), inc := inc }
   | .ev id =>
     let (st, _) := constIndex st (gname id)
@@ -189,6 +211,74 @@ def notExpr (c : Cond) (sub : CState → Res) (reg : Nat) (ec : ExpCtx) (st : CS
   | _ =>
     let (st1, b, _) := withPropagation false c.isLogical (sub st) reg
     { st := emit st1 (.not sreg b), inc := inc }
+
+/-! ### constant folding (`constFold` + `lnumberValue` on this expression language)
+
+    `lnum e = some x` iff `constFold(e)` returns a `constLValueExpr{x}` (or `e` is a numeral with value x): both
+    operands of an arithmetic node / the operand of a unary minus fold to constants.  `constFold` also rewrites
+    the child of a unary minus IN PLACE by its folded form; since folding the rewritten tree again gives the same
+    constants (`Proofs/ConstFold.lean`: `constFold_again`, `lnum_eq_constFold`) the test the compiler makes is a
+    function of the ORIGINAL tree, which is what this definition computes. -/
+def lnum : Cond → Option NumStruct.N
+  | .num n => some (NumStruct.lit n)
+  | .arith op l r =>
+    match lnum l, lnum r with
+    | some a, some b => some (NumStruct.apply op a b)
+    | _, _ => none
+  | .unm c =>
+    match lnum c with
+    | some a => some (NumStruct.neg a)
+    | none => none
+  | _ => none
+
+/-- `compileArithmeticOpExpr`, given `folded` = the constant `constFold` produced (if any) and the compile
+    functions of the two operands. -/
+def arithExpr (folded : Option NumStruct.N) (op : ArithOp) (cl cr : CState → Nat → Res) (ll rl : Bool)
+    (reg : Nat) (ec : ExpCtx) (st : CState) : Res :=
+  match folded with
+  | some x => loadK (.num x) reg ec st            -- exp.(*constLValueExpr): compileExpr(context, reg, ex, ec)
+  | none =>
+    let a := savereg ec reg
+    let o := binOperands cl cr ll rl st reg
+    { st := emit o.1 (.arith op a o.2.1 o.2.2), inc := if a < reg then 0 else 1 }
+
+/-- tail of `compileUnaryOpExpr`: `a := savereg(ec, reg); b := reg; compileExprWithMVPropagation(operand, &reg, &b);
+    code.AddABC(opcode, a, b, 0)`, given `sub` = compileExpr(context, reg, operand, ecnone(0)). -/
+def unopExpr (mk : Nat → Nat → Instr) (isLog : Bool) (sub : CState → Res) (reg : Nat) (ec : ExpCtx) (st : CState) : Res :=
+  let sreg := savereg ec reg
+  let w := withPropagation false isLog (sub st) reg
+  { st := emit w.1 (mk sreg w.2.1), inc := if sreg < reg then 0 else 1 }
+
+/-- `compileUnaryOpExpr` for `-c`: constant folding first. -/
+def unmExpr (folded : Option NumStruct.N) (isLog : Bool) (sub : CState → Res) (reg : Nat) (ec : ExpCtx) (st : CState) : Res :=
+  match folded with
+  | some x => loadK (.num x) reg ec st
+  | none => unopExpr .unm isLog sub reg ec st
+
+/-- length of the chain of concatenations hanging off the right operand
+    (`for current := expr.Rhs; …; { if StringConcatOpExpr { crange += 1; current = ex.Rhs } }`). -/
+def spine : Cond → Nat
+  | .concat _ r => spine r + 1
+  | _ => 0
+
+/-- `for pc := code.LastPC(); pc != 0 && opGetOpCode(code.At(pc)) == OP_CONCAT; pc-- { code.Pop() }` -/
+def dropConcats : Nat → List Instr → List Instr
+  | 0, c => c
+  | n + 1, c =>
+    match c.getLast? with
+    | some (.concat _ _ _) => if c.length = 1 then c else dropConcats n c.dropLast
+    | _ => c
+
+def popConcats (st : CState) : CState := { st with code := dropConcats st.code.length st.code }
+
+/-- `compileStringConcatOpExpr`, given the results of compiling the two operands
+    (`reg += compileExpr(Lhs, ecnone(0)); reg += compileExpr(Rhs, ecnone(0))`). -/
+def concatExpr (crange : Nat) (cl cr : CState → Nat → Res) (reg : Nat) (ec : ExpCtx) (st : CState) : Res :=
+  let a := savereg ec reg
+  let r1 := cl st reg
+  let r2 := cr r1.st (reg + r1.inc)
+  let st := popConcats r2.st
+  { st := emit st (.concat a reg (reg + crange)), inc := if a < reg then 0 else 1 }
 
 /-- `last := Last(); if last is MOVE a _ { SetA(LastPC, sreg) } else { AddABC(OP_MOVE, sreg, a, 0) }` -/
 def moveTo (s : CState) (sreg a : Nat) : CState :=
@@ -231,6 +321,16 @@ def comp : Cond → Mode → CState → Res
   | .ev id, .expr reg ec, st => leafExpr (.ev id) reg ec st
   -- ───────────── not (compileUnaryOpExpr) ─────────────
   | .not c, .expr reg ec, st => notExpr c (fun s => comp c (.expr reg ecnone0) s) reg ec st
+  -- ───────────── arithmetic, unary minus, length, concatenation ─────────────
+  | .arith op l r, .expr reg ec, st =>
+    arithExpr (lnum (.arith op l r)) op (fun s g => comp l (.expr g ecnone0) s) (fun s g => comp r (.expr g ecnone0) s)
+      l.isLogical r.isLogical reg ec st
+  | .unm c, .expr reg ec, st =>
+    unmExpr (lnum (.unm c)) c.isLogical (fun s => comp c (.expr reg ecnone0) s) reg ec st
+  | .len c, .expr reg ec, st =>
+    unopExpr .len c.isLogical (fun s => comp c (.expr reg ecnone0) s) reg ec st
+  | .concat l r, .expr reg ec, st =>
+    concatExpr (1 + spine r) (fun s g => comp l (.expr g ecnone0) s) (fun s g => comp r (.expr g ecnone0) s) reg ec st
   -- ───────────── relational (compileRelationalOpExpr) ─────────────
   | .rel op l r, .expr reg ec, st =>
     let a := savereg ec reg
@@ -312,6 +412,18 @@ def comp : Cond → Mode → CState → Res
     auxDefault (fun ec' s => leafExpr (.ev id) reg ec' s) reg ec thenl elsel hasnext lb b st
   | .not c, .aux reg ec thenl elsel hasnext lb b, st =>
     auxDefault (fun ec' s => notExpr c (fun s' => comp c (.expr reg ecnone0) s') reg ec' s) reg ec thenl elsel hasnext lb b st
+  | .arith op l r, .aux reg ec thenl elsel hasnext lb b, st =>
+    auxDefault (fun ec' s => arithExpr (lnum (.arith op l r)) op (fun s' g => comp l (.expr g ecnone0) s')
+        (fun s' g => comp r (.expr g ecnone0) s') l.isLogical r.isLogical reg ec' s) reg ec thenl elsel hasnext lb b st
+  | .unm c, .aux reg ec thenl elsel hasnext lb b, st =>
+    auxDefault (fun ec' s => unmExpr (lnum (.unm c)) c.isLogical (fun s' => comp c (.expr reg ecnone0) s') reg ec' s)
+      reg ec thenl elsel hasnext lb b st
+  | .len c, .aux reg ec thenl elsel hasnext lb b, st =>
+    auxDefault (fun ec' s => unopExpr .len c.isLogical (fun s' => comp c (.expr reg ecnone0) s') reg ec' s)
+      reg ec thenl elsel hasnext lb b st
+  | .concat l r, .aux reg ec thenl elsel hasnext lb b, st =>
+    auxDefault (fun ec' s => concatExpr (1 + spine r) (fun s' g => comp l (.expr g ecnone0) s')
+        (fun s' g => comp r (.expr g ecnone0) s') reg ec' s) reg ec thenl elsel hasnext lb b st
   -- ═════════════ compileBranchCondition ═════════════
   | .not c, .bc reg thenl elsel hasnext, st => comp c (.bc reg elsel thenl (!hasnext)) st
   | .and l r, .bc reg thenl elsel hasnext, st =>
@@ -346,6 +458,20 @@ def comp : Cond → Mode → CState → Res
     bcDefault (leafExpr (.loc r) reg ecnone0 st) reg (flipOf hasnext) (if hasnext then thenl else elsel)
   | .ev id, .bc reg thenl elsel hasnext, st =>
     bcDefault (leafExpr (.ev id) reg ecnone0 st) reg (flipOf hasnext) (if hasnext then thenl else elsel)
+  | .arith op l r, .bc reg thenl elsel hasnext, st =>
+    bcDefault (arithExpr (lnum (.arith op l r)) op (fun s g => comp l (.expr g ecnone0) s)
+        (fun s g => comp r (.expr g ecnone0) s) l.isLogical r.isLogical reg ecnone0 st)
+      reg (flipOf hasnext) (if hasnext then thenl else elsel)
+  | .unm c, .bc reg thenl elsel hasnext, st =>
+    bcDefault (unmExpr (lnum (.unm c)) c.isLogical (fun s => comp c (.expr reg ecnone0) s) reg ecnone0 st)
+      reg (flipOf hasnext) (if hasnext then thenl else elsel)
+  | .len c, .bc reg thenl elsel hasnext, st =>
+    bcDefault (unopExpr .len c.isLogical (fun s => comp c (.expr reg ecnone0) s) reg ecnone0 st)
+      reg (flipOf hasnext) (if hasnext then thenl else elsel)
+  | .concat l r, .bc reg thenl elsel hasnext, st =>
+    bcDefault (concatExpr (1 + spine r) (fun s g => comp l (.expr g ecnone0) s)
+        (fun s g => comp r (.expr g ecnone0) s) reg ecnone0 st)
+      reg (flipOf hasnext) (if hasnext then thenl else elsel)
 
 /-! ### the Go functions by name -/
 
